@@ -2,7 +2,7 @@
    graph  = ((node...) (edge...)), node = (id label type ((key w)...) (wild...)),
             edge = (from to type tupleset (cond...) ((key w)...) (wild...))
    result = (0 graph) | (1 class msg) ; class 0 invalid model, 1 model cycle, 2 tuple cycle, 3 constraint tuple cycle, 5 out of fuel *)
-From Verif Require Import Base.Str Base.Sx Base.Outcome Model.Ast Model.WGraph Model.WWeights Model.PGraph Model.WireModel Spec.GraphWeights Spec.GraphShape.
+From Verif Require Import Base.Str Base.Sx Base.Outcome Model.Ast Model.WGraph Model.WWeights Model.PGraph Model.WireModel Spec.GraphWeights Spec.GraphShape Spec.Weights.
 
 (* nodes all of whose edges lead to nodes already peeled, round after round *)
 Fixpoint peel (fuel : nat) (g : wgraph) (done : list str) : list str :=
@@ -78,6 +78,19 @@ Definition dispatch_graph (op : N) (args : list sx) : option sx :=
                                      sx_bool (fuel_check g);
                                      sx_bool (forallb (spec_accepts g) (default_order g))]
                                else SL [sx_bool false; SL []; sx_bool false; sx_bool false]
+                           | _ => SL [SA 2; SL []]
+                           end) (un_model m)
+  | 504, [m] =>
+      (* the property's own definition of weights on the MODEL (Spec/Weights.spec_of; C06_operand_order_on_the_model is about
+         it), for every relation; unfolding is exponential on cyclic models, so only models whose graph peels completely *)
+      option_map (fun m => match wbuild m with
+                           | Ok g =>
+                               if quick_acyclic g then
+                                 SL [sx_bool true;
+                                     sx_list (fun td => sx_list (fun p => SL [sx_str (td_name td ++ lit "#" ++ fst p);
+                                                                              sx_wmap (spec_of m (td_name td) (fst p))]) (td_rels td))
+                                             (m_types m)]
+                               else SL [sx_bool false; SL []]
                            | _ => SL [SA 2; SL []]
                            end) (un_model m)
   | 503, [m] => option_map (fun m => SL [sx_bool (shape_domain m); sx_bool (model_valid m)]) (un_model m)
